@@ -131,14 +131,48 @@ def crc_reset_rule(ctx, repo, eff):
     calc = repo.cls("etsi.crc.crc", "BitCrcCalculator")
     cc = repo.find_method(calc, "calculate_checksum")
     ctx.saw_func(cc)
-    body = [s for s in cc.node.body if not (isinstance(s, ast.Expr) and isinstance(s.value, ast.Constant))]
+    # must-pass-through: on every path through calculate_checksum no update() / digest() of the register happens before init()
+    # of the same register (other statements may come and go — only the order of the register calls matters)
+    reg_attrs = set()
 
-    def call_on_register(s, name):
-        v = s.value if isinstance(s, (ast.Expr, ast.Return)) else None
-        return isinstance(v, ast.Call) and isinstance(v.func, ast.Attribute) and v.func.attr == name and isinstance(v.func.value, ast.Attribute) \
-            and isinstance(v.func.value.value, ast.Name) and v.func.value.value.id == "self"
-    order_ok = len(body) == 3 and call_on_register(body[0], "init") and call_on_register(body[1], "update") and call_on_register(body[2], "digest")
-    reg_attr = body[0].value.func.value.attr if order_ok else None
+    def reg_call(node):
+        """(attr of self holding the register, method) if node is self.<attr>.<method>(...)"""
+        if isinstance(node, ast.Call) and isinstance(node.func, ast.Attribute) and isinstance(node.func.value, ast.Attribute) \
+                and isinstance(node.func.value.value, ast.Name) and node.func.value.value.id == "self" and node.func.attr in ("init", "update", "digest"):
+            return node.func.value.attr, node.func.attr
+        return None
+    problems = []
+
+    def walk(stmts, inited: bool) -> bool:
+        for st in stmts:
+            if isinstance(st, ast.If):
+                for n in ast.walk(st.test):
+                    rc = reg_call(n)
+                    if rc and rc[1] != "init" and not inited:
+                        problems.append(f"line {n.lineno}: {rc[1]}() before init()")
+                a = walk(st.body, inited)
+                b = walk(st.orelse, inited)
+                inited = a and b
+                continue
+            if isinstance(st, (ast.For, ast.While, ast.With, ast.Try)):
+                inited = walk(getattr(st, "body", []), inited) and inited
+                continue
+            calls = [reg_call(n) for n in ast.walk(st)]
+            calls = [c for c in calls if c]
+            # evaluation order inside one statement: source order of the calls
+            for attr, meth in sorted(calls, key=lambda c: 0):
+                reg_attrs.add(attr)
+            for n in sorted((n for n in ast.walk(st) if reg_call(n)), key=lambda n: (n.lineno, n.col_offset)):
+                attr, meth = reg_call(n)
+                if meth == "init":
+                    inited = True
+                elif not inited:
+                    problems.append(f"line {n.lineno}: {meth}() before init()")
+        return inited
+    walk(cc.node.body, False)
+    uses = [n for n in ast.walk(cc.node) if reg_call(n)]
+    order_ok = not problems and any(reg_call(n)[1] == "init" for n in uses) and any(reg_call(n)[1] == "digest" for n in uses) and len(reg_attrs) == 1
+    reg_attr = next(iter(reg_attrs)) if len(reg_attrs) == 1 else None
     # register classes stored in that field
     regs = [c for c in repo.all_classes() if c.module.short == "etsi.crc.crc" and repo.find_method(c, "init") is not None and repo.find_method(c, "_process_bits") is not None
             and not any("abstractmethod" in d for d in repo.find_method(c, "_process_bits").decorators)]
@@ -191,11 +225,12 @@ def crc_reset_rule(ctx, repo, eff):
         config_fields = r_init - every     # fields init reads that nothing but the constructor writes
         ok = order_ok and w_use <= w_init and r_init <= (config_fields | set()) and bool(w_use)
         ctx.ob("shared/crc-reset-before-use", f"{ci.qualname}", ok,
-               f"calculate_checksum = {reg_attr}.init(); .update(data); .digest() in this order: {order_ok}; written while in use {sorted(w_use)}, re-initialised by init {sorted(w_init)}, "
+               f"in calculate_checksum every update() / digest() of self.{reg_attr} is preceded by its init() on every path: {order_ok}{(' (' + '; '.join(problems[:2]) + ')') if problems else ''}; "
+               f"written while in use {sorted(w_use)}, re-initialised by init {sorted(w_init)}, "
                f"init reads {sorted(r_init)} of which only constructor-written {sorted(config_fields)}", ci.loc)
         if ok:
             proved.add(ci.qualname)
-    return proved, len(regs)
+    return proved, len(regs), w_use | w_init
 
 
 def diagnostic_flag_rule(ctx, repo, eff, origin, ev):
@@ -232,7 +267,7 @@ def shared_rules(ctx, repo, eff):
     for ev in eff.events.values():
         if ev.origin[0] == "S":
             by_origin.setdefault(ev.origin, []).append(ev)
-    proved_regs, n_regs = crc_reset_rule(ctx, repo, eff)
+    proved_regs, n_regs, reg_fields = crc_reset_rule(ctx, repo, eff)
     calc_q = "etsi.crc.crc:BitCrcCalculator.calculate_checksum"
     for origin in sorted(set(inv) | set(by_origin) - set(default_orig), key=repr):
         if origin in default_orig:
@@ -244,7 +279,10 @@ def shared_rules(ctx, repo, eff):
             if memo_exempt(ev):
                 notes.append(f"memo store at {ev.fi.qualname}:{ev.line} (the key determines the value)")
                 continue
-            if calc_q in ev.via and len(proved_regs) == n_regs and ev.via.index(calc_q) == 0:
+            # only the register's own state, written by the register's own methods, is covered by the re-initialisation proof
+            reg_only = ev.via and ev.via[0] == calc_q and all(v.startswith("etsi.crc.crc:") and "Register" in v for v in ev.via[1:]) \
+                and ev.how.startswith("attribute store .") and ev.how.split(".", 1)[1].split()[0] in (reg_fields | {"register"})
+            if reg_only and len(proved_regs) == n_regs:
                 notes.append(f"{ev.fi.qualname}:{ev.line} uses the shared calculator through calculate_checksum (re-initialised before use: shared/crc-reset-before-use)")
                 continue
             if ev.how.startswith("class attribute re-bound"):
